@@ -251,6 +251,21 @@ def judge(case):
         exp_off = provider_offset(provider, zone, want)
         if g.utcoffset() != exp_off:
             fails.append(Failure("C11.read", "parsed-offset-differs", f"{zone} {want}: {g.utcoffset()} expected {exp_off} (provider {provider})"))
+    if shape == "single" and not is_utc and src != "dateutil":
+        # the same text through the value classes themselves, the zone given as the provider's own tzinfo object (documented for
+        # vDatetime.from_ical) or as its id: the offset is the one the provider assigns to that wall time
+        from icalendar.prop import vDDDTypes, vDatetime
+        zobj = pytz.timezone(zone) if provider == "pytz" else zoneinfo.ZoneInfo(zone)
+        for how, arg in (("tzinfo-object", zobj), ("id", zone)):
+            for cls_ in (vDatetime, vDDDTypes):
+                try:
+                    d_ = cls_.from_ical(fmt(naive), arg)
+                    if d_.replace(tzinfo=None) != naive or d_.utcoffset() != provider_offset(provider, zone, naive):
+                        fails.append(Failure("C11.read", f"value-class-decodes-another-offset/{how}", f"{cls_.__name__}.from_ical({fmt(naive)!r}, {arg!r}) -> {d_!r} offset {d_.utcoffset()} expected {provider_offset(provider, zone, naive)}"))
+                        break
+                except Exception as e:  # noqa: BLE001
+                    fails.append(Failure("C11.read", f"value-class-raises/{how}/" + exc_signature(e), f"{cls_.__name__} {fmt(naive)} {arg!r}: {e!r}"[:300]))
+                    break
     if shape in ("rdate-period", "freebusy"):
         g = got[0]
         if not isinstance(g, tuple):
